@@ -228,10 +228,7 @@ def correspondence(ctx, obs, max_n_float):
         txt = res.get(cid)
         m = re.match(r"\((true|false), (true|false), (true|false), (true|false), (.*)\)$", txt or "")
         if not m:
-            ctx.case_failures.append({"case": cid, "output": txt})
-            ctx.violation("S4", f"model evaluation failed for case {cid} (n={o['n']})", {"kind": "model_eval", "n": o["n"]},
-                          dict(describe(o), output=txt), found_input=False)
-            nbad += 1
+            unchecked_eval(ctx, "C11", cid)     # no output (time limit / crash): an unchecked obligation, not a disagreement
             continue
         okk, oks2, oks4, okb = (m.group(i) == "true" for i in (1, 2, 3, 4))
         fam = o.get("family", "float")
@@ -282,7 +279,24 @@ def interval_cases(ctx, obs, limit):
         o = meta[cid]
         ctx.case_failures.append({"case": cid})
         ctx.violation("S4", f"real-valued model (complex moduli, trace form) and schmidt_number = {kval(o['base'])!r} disagree beyond 1e-9 (n={o['n']})",
-                      {"kind": "value", "family": o.get("family", "float"), "n": o["n"]}, dict(describe(o), rust_k=kval(o["base"]), case=cid))
+                      {"kind": "value", "family": o.get("family", "float"), "n": o["n"]}, dict(describe(o), rust_k=kval(o["base"]), case=cid), found_input=False)
+
+
+def unchecked_eval(ctx, name, cid):
+    """a vm_compute evaluation that printed no result: counted as an unchecked obligation (like vlib's no-verdict goals)"""
+    ctx.cov["unchecked_cases"] = ctx.cov.get("unchecked_cases", 0) + 1
+    tag = (f"Cases/{name}", "no-verdict")
+    for i, f in enumerate(ctx.proof_failures):
+        if (f[0], f[1]) == tag:
+            ctx.proof_failures[i] = (f[0], f[1], f[2] + f", {cid}")
+            return
+    ctx.proof_failures.append((tag[0], tag[1], f"model evaluation(s) without output from coqc (time limit): {cid}"))
+
+
+def unknown_failing(ctx):
+    """a concrete failing input that is NOT a known finding (a known finding firing on the same run must not stop the search)"""
+    fs = load_findings()
+    return any(v["found_input"] and match_finding(v, fs, ctx.prop) is None for v in ctx.violations)
 
 
 def run(ctx):
@@ -303,12 +317,12 @@ def run(ctx):
         interval_cases(ctx, obs, 12 if quick else 40)
     else:
         ctx.note("correspondence skipped: Model/Schmidt.v did not compile")
-    if (not proved or ctx.case_failures) and not any(v["found_input"] for v in ctx.violations):
+    if (not proved or ctx.case_failures) and not unknown_failing(ctx):
         ctx.log("S5 deep search for a failing input (obligations broken or model/implementation disagree)")
         for k in range(3):
             obs2 = run_harness(ctx, binp, ["c11", ctx.seed + 7919 * (k + 1), 400, 24, 8, 3000])
             oracle(ctx, obs2)
-            if any(v["found_input"] for v in ctx.violations):
+            if unknown_failing(ctx):
                 break
     ctx.cov["rule"] = ("lengths: every length 1..2000 plus neighbours d^2-1, d^2+1, d^2+d of squares (d <= 1005), random lengths < 10^6 and four large "
                        "squares; values: families random / sparse / rank-1 / equal diagonal / permuted diagonal / unequal diagonal / two-block with "
